@@ -713,3 +713,14 @@ register(
     "in-domain input is a value question and is NOT claimed.",
     [A_CFG, T_OPS, "searchsorted adds eps to the last knot only (C20 UT-SEARCH)"],
 )
+
+
+# C03's "onto the whole support" half for bounded transformers is exactly these rules
+from . import flow_rules as _fr  # noqa: E402
+from . import PROPERTIES as _P  # noqa: E402
+
+_P["C03"]["rules"] = list(_P["C03"]["rules"]) + [c09_pin, floor_rule, tail_rule]
+_P["C03"]["explanation"] = _P["C03"]["explanation"].replace(
+    "The onto-half for bounded transformers (end-point pinning, identity tails) is decided by the C09 rules.",
+    "The onto-half for bounded transformers is decided by the spline family rules run here as well: SPL-PIN (both end-points of every searched knot vector stored exactly), INV-SIDE, SPL-FLOOR (bin sizes positive and summing to one) and SPL-TAIL (closed mask, identity tails, square box).",
+)
